@@ -513,6 +513,8 @@ def compare_vm(case, obs, res):
                 # the model asked for a different number of random.choice outcomes than the interpreter used: a divergence
                 return f"event {n} {st['item']}: {m['why']}"
             break
+        if m["res"] == "guard":
+            return f"event {n} {st['item']}: CoreVM stopped on a run-time assertion of the model (`{m['op']}`): an index operation whose guard does not hold, or an instance left STOPPING (the interpreter went on)"
         if m["res"] == "fuel":
             info["stop"] = "fuel"
             break
@@ -708,6 +710,8 @@ def _latent_regions(obs):
                 out.add("dangling-child")
             if any(a not in sn.get("actions", {}) for a in i.get("scope_actions", [])):
                 out.add("dangling-scope-action")
+            if any(c not in uids for c in i.get("scope_flows", [])):
+                out.add("dangling-scope-flow")
     return sorted(out)
 
 
